@@ -391,6 +391,48 @@ func main() {
 		die("Subprocess.Execute: statement outside the translated fragment: %s", s)
 	}
 
+	// ---- Subprocess.Start
+	var startBody []string
+	for _, st := range must(findFunc(ex, "Subprocess", "Start"), "Subprocess.Start").Body.List {
+		s := norm(st)
+		m := map[string]string{
+			"ifs.IsOn(){return}":       "TIfOnReturn",
+			"s.mu.Lock()":              "TLock",
+			"s.mu.Unlock()":            "TUnlock",
+			"defers.mu.Unlock()":       "TDeferUnlock",
+			"err=s.check()":            "TCheck",
+			"iferr!=nil{return}":       "TRetIfErr",
+			"s.reset()":                "TReset",
+			"s.runProcessMonitoring()": "TRunMonitoring",
+			"cmd:=s.getCmd()":          "TGetCmd",
+			"err=cmd.Start()":          "TCmdStart",
+			"pid,err:=cmd.Pid()":       "TPid",
+			"s.isRunning.Store(true)":  "TRunningTrue",
+			"s.messaging.SetPid(pid)":  "TSetPid",
+			"s.messaging.LogStarted()": "TLogStarted",
+			"return":                   "TReturn",
+			"iferr!=nil{s.messaging.LogFailedStart(err)s.isRunning.Store(false)s.Cancel()return}": "TFailStart",
+		}
+		c, ok := m[s]
+		if !ok {
+			die("Subprocess.Start: statement outside the translated fragment: %s", s)
+		}
+		startBody = append(startBody, c)
+	}
+	// ---- Subprocess.check / command.Check: they may only look at the object (calls allowed: fmt.Errorf, the two Check
+	// methods of its parts); anything else (a look-up in the file system, the PATH, ...) can make stop() give up
+	checkPure := "true"
+	pureCalls := map[string]bool{"fmt.Errorf": true, "s.command.Check": true, "s.messaging.Check": true}
+	for _, fd := range []*ast.FuncDecl{must(findFunc(ex, "Subprocess", "check"), "Subprocess.check"), must(findFunc(cw, "command", "Check"), "command.Check")} {
+		ast.Inspect(fd.Body, func(n ast.Node) bool {
+			if c, ok := n.(*ast.CallExpr); ok && !pureCalls[norm(c.Fun)] {
+				checkPure = "false"
+			}
+			return true
+		})
+	}
+	exact("Subprocess", "Check", "{s.mu.RLock()defers.mu.RUnlock()returns.check()}")
+
 	// ---- the monitor goroutine
 	mo := parse(filepath.Join(dir, "monitoring.go"))
 	rpm := must(findFunc(mo, "subprocessMonitoring", "runProcessMonitoring"), "subprocessMonitoring.runProcessMonitoring")
@@ -448,7 +490,9 @@ func main() {
 	fmt.Fprintf(&b, "  (* Subprocess.Cancel *) %s\n", coqList(cancelBody))
 	fmt.Fprintf(&b, "  (* Subprocess.stop *) %s\n", coqList(stopOuter))
 	fmt.Fprintf(&b, "  (* Subprocess.Execute *) %s\n", coqList(execBody))
-	fmt.Fprintf(&b, "  (* monitor goroutine *) %s.\n", coqList(monBody))
+	fmt.Fprintf(&b, "  (* monitor goroutine *) %s\n", coqList(monBody))
+	fmt.Fprintf(&b, "  (* Subprocess.Start *) %s\n", coqList(startBody))
+	fmt.Fprintf(&b, "  (* check()/Check() look at the object only *) %s.\n", checkPure)
 	old, _ := os.ReadFile(out)
 	if string(old) == b.String() {
 		return
